@@ -300,6 +300,11 @@ FORMS = [
     ("augassign", "def fm_2(a: Qint[2]) -> Qint[4]:\n\tc = a\n\tc *= 3\n\tc <<= 1\n\tc |= 1\n\treturn c"),
     ("multitarget", "def fm_3(a: Qint[2], b: Qint[3]) -> Qint[4]:\n\tc, d = b, a\n\treturn c - d"),
     ("multitarget", "def fm_4(t: Tuple[Qint[2], Qint[3]]) -> Qint[3]:\n\tc, d = t\n\treturn d ^ c"),
+    # the right-hand side of a multi-target assignment reads its own targets: Python evaluates it completely first
+    ("multitarget-swap", "def fm_5(a: Qint[2], b: Qint[2]) -> Qint[2]:\n\ta, b = b, a\n\treturn a - b"),
+    ("multitarget-swap", "def fm_6(a: Qint[3], b: Qint[3]) -> Qint[3]:\n\tx = a\n\ty = b\n\tx, y = y, x + y\n\tx, y = y, x + y\n\treturn x"),
+    ("multitarget-swap", "def fm_7(a: bool, b: bool, c: bool) -> bool:\n\ta, b, c = c, a, b\n\treturn (a and not b) or c"),
+    ("multitarget-swap", "def fm_8(a: Qint[2], b: bool) -> Qint[2]:\n\tc = a + 1\n\tc, a = a, c\n\treturn c if b else a"),
     ("if", "def fm_5(a: Qint[2], b: Qint[3], c: bool) -> Qint[3]:\n\td = a\n\tif c:\n\t\td = b\n\treturn d"),
     ("ifelse", "def fm_6(a: Qint[2], b: Qint[2], c: bool) -> Qint[3]:\n\td = a\n\te = b\n\tif a > b:\n\t\td = a - b\n\t\te = d + 1\n\telse:\n\t\td = b - a\n\treturn d + e"),
     ("ifelse", "def fm_7(a: Qint[3], c: bool, d: bool) -> Qint[3]:\n\tr = a\n\tif c and not d:\n\t\tr += 1\n\telse:\n\t\tr = r >> 1\n\treturn r"),
